@@ -232,6 +232,12 @@ func Load(repo, goarch string) (*World, error) {
 		patterns = append(patterns, m[1]+"/...")
 	}
 	patterns = append(patterns, StagedModule+"/...")
+	// the standard iterator adapters are loaded with their source: a loop written as `range slices.Values(xs)` or
+	// slices.AppendSeq(...) is followed into them like into the repository's own helpers
+	stdFollowed := map[string]bool{"slices": true, "maps": true, "iter": true}
+	for p := range stdFollowed {
+		patterns = append(patterns, p)
+	}
 
 	cfg := &packages.Config{
 		Mode:  packages.LoadSyntax | packages.NeedModule,
@@ -301,12 +307,19 @@ func Load(repo, goarch string) (*World, error) {
 		w.All = append(w.All, p)
 	}
 	sort.Slice(w.All, func(i, j int) bool { return w.All[i].PkgPath < w.All[j].PkgPath })
-	prog, ssapkgs := ssautil.Packages(w.All, ssa.BuilderMode(0))
-	for i, sp := range ssapkgs {
-		if sp == nil {
-			return nil, fmt.Errorf("no SSA for %s", w.All[i].PkgPath)
+	withStd := append([]*packages.Package{}, w.All...)
+	for _, p := range pkgs {
+		if stdFollowed[p.PkgPath] && len(p.Syntax) > 0 {
+			withStd = append(withStd, p)
 		}
 	}
+	prog, ssapkgs := ssautil.Packages(withStd, ssa.BuilderMode(0))
+	for i, sp := range ssapkgs {
+		if sp == nil {
+			return nil, fmt.Errorf("no SSA for %s", withStd[i].PkgPath)
+		}
+	}
+	ssapkgs = ssapkgs[:len(w.All)]
 	prog.Build()
 	w.Prog = prog
 	for i, sp := range ssapkgs {
